@@ -244,6 +244,20 @@ impl FixtureDatabase {
         Some(arc_ast)
     }
 
+    /// AST to read a file's imports from: the one of `content`, or - while `content` does
+    /// not parse - the one of the last version that did (see `analyze_file_internal`).
+    pub(crate) fn get_parsed_ast_or_last_valid(
+        &self,
+        file_path: &Path,
+        content: &str,
+    ) -> Option<Arc<rustpython_parser::ast::Mod>> {
+        self.get_parsed_ast(file_path, content).or_else(|| {
+            self.ast_cache
+                .get(file_path)
+                .map(|cached| Arc::clone(&cached.value().1))
+        })
+    }
+
     /// Compute a hash of the content for cache invalidation.
     fn hash_content(content: &str) -> u64 {
         let mut hasher = DefaultHasher::new();
